@@ -179,6 +179,7 @@ func (s *State) snapshot() *Snapshot {
 	for k, v := range s.heap {
 		sn.heap[k] = v
 	}
+	s.eng.coordSnapshot(sn) // models_coord.go: allocation counter, for fresh()/keeps*() clauses
 	return sn
 }
 
